@@ -1,8 +1,11 @@
 """C20 — executor lifecycles leak no parent-side resources (executor-owned resources)."""
 from ..ech import H
 
-LEVEL = "other"
+LEVEL = "model_checking"
+ENGINE = "E-CH+E-TS"
 EXPLANATION = (
+    "E-TS slice x6: after the real terminate_broken -> kill_workers -> join_executor_internals every queue and the wakeup "
+    "pipe are closed, every started worker is dead and joined and both locks are free, from any consistent bookkeeping state. "
     "Balance contracts on the real code (CrossHair/z3) over fake kernels that track open descriptors: "
     "join_executor_internals / terminate_broken close call queue, result queue and wakeup pipe and join every "
     "registered worker; _ThreadWakeup.close is idempotent and closes both ends; Popen._launch leaves exactly the "
@@ -17,9 +20,15 @@ M = "lokyverif.harness.c02_broken"
 PE = "loky.process_executor:_ExecutorManagerThread."
 
 
+def SL(name, builder, K, timeout_s=1500, params=None):
+    return ("lokyverif.ets.units_exec", "slice_unit", dict(prop="C20", name=name, builder=builder, K=K,
+                                                            timeout_s=timeout_s, params=params))
+
+
 def units(tier):
     t = 1500 if tier == "thorough" else 700
     return [
+        SL("slice.terminate_broken", "x6_terminate_broken", 44),
         H("C20", M, "check_join_internals", t, [PE + "join_executor_internals"], "0..3 workers"),
         H("C20", M, "check_terminate_broken", t, [PE + "terminate_broken"], "0..3 pending, 0..3 workers"),
         H("C20", M, "check_wakeup_close_idempotent", t, ["loky.process_executor:_ThreadWakeup.close"], "1..3 closes"),
